@@ -71,8 +71,10 @@ func (c *Ctx) tsConfig() eng.TSConfig {
 			return nil
 		},
 		SkipDangling: func(place string, fn *ssa.Function) bool {
-			if place == "nbio.toWrite.buf" {
-				// the queue entry itself is dropped with its buffer (decided by C11.O7)
+			if place == "nbio.toWrite.buf" && p.FuncName(ir.Outermost(fn)) != "(*nbio.Conn).newToWriteBuf" {
+				// the queue entry itself is dropped with its buffer (decided by C11.O7);
+				// the enqueue function keeps its entries, so a released buffer left in
+				// an entry there is a dangling reference like any other
 				return true
 			}
 			if place == "nbhttp.Parser.bytesCached" && p.FuncName(fn) == "(*nbhttp.Parser).CloseAndClean" {
